@@ -61,9 +61,12 @@ structure Sess where
   /-- ghost: the database value this session's pending write of the object was based on (what it had seen when it
       sent its first UPDATE of the object) -/
   basis : Obj → Option Val
+  /-- ghost: the session has committed in its middle (`commit()` / `db.commit()` inside the `db_session`): what it knows
+      of the objects in its identity map may stem from an earlier transaction -/
+  renewed : Bool
 
 def Sess.fresh (immediate checks : Bool) : Sess :=
-  ⟨immediate, checks, .active, false, fun _ => none, fun _ => false, fun _ => none, fun _ => none, fun _ => none⟩
+  ⟨immediate, checks, .active, false, fun _ => none, fun _ => false, fun _ => none, fun _ => none, fun _ => none, false⟩
 
 structure St where
   /-- the committed rows (what every connection outside a transaction reads) -/
@@ -79,12 +82,16 @@ structure St where
   lost : Bool
   /-- ghost monitor: a step of one session changed a committed value that another active session holds stable -/
   broken : Bool
+  /-- ghost: a session WITHOUT optimistic checks (`optimistic=False`, `serializable=True`) has committed in its middle:
+      from then on it may save objects from its identity map that nothing verifies (known finding) -/
+  unguarded : Bool
 
 inductive Act
   | read (o : Obj)                 -- E[o] / select without lock; served from the identity map when already loaded
   | lockRead (o : Obj)             -- E.get_for_update(...) / select(...).for_update(nowait, skip_locked): always queries
   | update (o : Obj) (v : Val)     -- obj.x = v; flush(): the UPDATE statement
   | commit                         -- leaving the db_session normally
+  | commitMid                      -- commit() / db.commit() INSIDE the db_session: the transaction ends, the session goes on
   | rollback                       -- leaving it with an exception
   deriving Repr, DecidableEq, Inhabited
 
@@ -144,6 +151,30 @@ def ensureTxn (n : Nat) (σ : St) (s : Sid) : Begin :=
           if writerOther σ s n then .busy (failSess σ s)
           else .ok (setSess { σ with lock := upd σ.lock d (some s) } s { ss with inTxn := true })
 
+/-- `SessionCache.commit`: COMMIT when a transaction is open (the lock is released, `cache.for_update.clear()`), then
+    `cache.immediate = True`.  `final`: the `db_session` ends here; otherwise (`commit()` in the middle) the session goes
+    on, immediate from now on, with its identity map (`seen`) intact. -/
+def commitSess (n : Nat) (σ : St) (s : Sid) (final : Bool) : St :=
+  let ss := σ.sess s
+  let st : Status := if final then .committed else .active
+  let ung : Bool := σ.unguarded || (!final && !ss.checks)
+  if ss.inTxn then
+    let d := σ.dom s
+    let newdb : Obj → Val := fun o => (ss.pend o).getD (σ.db o)
+    -- ghost monitors, evaluated on the state just before the commit
+    let lostNow : Bool := (List.range n).any (fun o => (ss.pend o).isSome && (ss.basis o).isSome && ss.basis o != some (σ.db o))
+    let brokenNow : Bool := (List.range n).any (fun t => t != s && (σ.sess t).status == .active &&
+      (List.range n).any (fun o => ((σ.sess t).stable o).isSome && (σ.sess t).stable o != some (newdb o)))
+    { σ with db := newdb, lock := upd σ.lock d none, lost := σ.lost || lostNow, broken := σ.broken || brokenNow,
+             unguarded := ung,
+             sess := upd σ.sess s { ss with status := st, inTxn := false, immediate := ss.immediate || !final,
+                                            pend := fun _ => none, forUpd := fun _ => false, stable := fun _ => none,
+                                            basis := fun _ => none, renewed := ss.renewed || !final } }
+  else
+    { σ with unguarded := ung,
+             sess := upd σ.sess s { ss with status := st, immediate := ss.immediate || !final, stable := fun _ => none,
+                                            renewed := ss.renewed || !final } }
+
 /-- one operation of session `s` -/
 def step (n : Nat) (σ : St) (s : Sid) (a : Act) : St × Res :=
   let ss := σ.sess s
@@ -196,19 +227,8 @@ def step (n : Nat) (σ : St) (s : Sid) (a : Act) : St × Res :=
             (setSess σ' s { ss' with pend := upd ss'.pend o (some v), seen := upd ss'.seen o (some v),
                                      basis := if (ss'.pend o).isNone then upd ss'.basis o (some r) else ss'.basis },
              .ok none)
-  | .commit =>
-      if ss.inTxn then
-        let d := σ.dom s
-        let newdb : Obj → Val := fun o => (ss.pend o).getD (σ.db o)
-        -- ghost monitors, evaluated on the state just before the commit
-        let lostNow : Bool := (List.range n).any (fun o => (ss.pend o).isSome && (ss.basis o).isSome && ss.basis o != some (σ.db o))
-        let brokenNow : Bool := (List.range n).any (fun t => t != s && (σ.sess t).status == .active &&
-          (List.range n).any (fun o => ((σ.sess t).stable o).isSome && (σ.sess t).stable o != some (newdb o)))
-        ({ σ with db := newdb, lock := upd σ.lock d none, lost := σ.lost || lostNow, broken := σ.broken || brokenNow,
-                  sess := upd σ.sess s { ss with status := .committed, inTxn := false, pend := fun _ => none,
-                                                 forUpd := fun _ => false, stable := fun _ => none, basis := fun _ => none } },
-         .ok none)
-      else (setSess σ s { ss with status := .committed, stable := fun _ => none }, .ok none)
+  | .commit => (commitSess n σ s true, .ok none)
+  | .commitMid => (commitSess n σ s false, .ok none)
   | .rollback => (failSess σ s, .ok none)
 
 def run (n : Nat) (σ : St) : List (Sid × Act) → St
@@ -226,7 +246,7 @@ def runAll (n : Nat) (σ : St) : List (Sid × Act) → List Res × St
 /-- the start: nobody holds a lock, every session is fresh -/
 def St.init (db : Obj → Val) (cfg : Sid → Bool × Bool) (dom : Sid → Nat) : St :=
   { db := db, lock := fun _ => none, pre := fun _ => none,
-    sess := fun s => Sess.fresh (cfg s).1 (cfg s).2, dom := dom, lost := false, broken := false }
+    sess := fun s => Sess.fresh (cfg s).1 (cfg s).2, dom := dom, lost := false, broken := false, unguarded := false }
 
 /-! ### the FOR UPDATE clause (SQLBuilder.SELECT_FOR_UPDATE; OraBuilder without ROWNUM; SQLiteBuilder drops it) -/
 
